@@ -195,6 +195,55 @@ func VerifySigned(signed *refjson.Value, domain, keyID, publicKeyB64 string) boo
 	return ed25519.Verify(pub, refjson.Canonical(stripped), sig)
 }
 
+// PseudoEncode returns the scenario re-encoded for a pseudo-ID room: every user ID of `users` is replaced, wherever it
+// occurs (senders, state keys, keys and values inside contents), by a sender ID that is not a user ID (43 URL-safe base64
+// characters, as a room key would be), together with the querier that maps the sender IDs back. The abstract scenario is
+// the same; a library that confuses the two kinds of identifier somewhere treats the two encodings differently.
+func (sc *Scenario) PseudoEncode(users []string) (*Scenario, spec.UserIDForSender) {
+	var pairs []string
+	back := map[string]string{}
+	for i, u := range users {
+		pid := strings.Repeat(string(rune('A'+i)), 40) + "key"
+		pairs = append(pairs, u, pid)
+		back[pid] = u
+	}
+	rep := strings.NewReplacer(pairs...)
+	out := &Scenario{Version: sc.Version, Event: sc.Event}
+	for _, se := range sc.State {
+		se.Sender, se.StateKey, se.Content = rep.Replace(se.Sender), rep.Replace(se.StateKey), rep.Replace(se.Content)
+		out.State = append(out.State, se)
+	}
+	out.Event.Sender, out.Event.Content = rep.Replace(sc.Event.Sender), rep.Replace(sc.Event.Content)
+	if sc.Event.StateKey != nil {
+		sk := rep.Replace(*sc.Event.StateKey)
+		out.Event.StateKey = &sk
+	}
+	q := func(_ spec.RoomID, s spec.SenderID) (*spec.UserID, error) {
+		if u, ok := back[string(s)]; ok {
+			return spec.NewUserID(u, true)
+		}
+		return spec.NewUserID(string(s), true)
+	}
+	return out, q
+}
+
+// RunWith is Run with the caller's sender-ID resolution.
+func (sc *Scenario) RunWith(q spec.UserIDForSender) (verdict error, buildErr error) {
+	st, err := sc.StatePDUs()
+	if err != nil {
+		return nil, err
+	}
+	ev, err := sc.EventPDU()
+	if err != nil {
+		return nil, err
+	}
+	prov, err := gmsl.NewAuthEvents(st)
+	if err != nil {
+		return nil, err
+	}
+	return gmsl.Allowed(ev, prov, q), nil
+}
+
 // Run executes the scenario on the library: verdict (nil = allowed), or a harness-level build error.
 func (sc *Scenario) Run() (verdict error, buildErr error) {
 	st, err := sc.StatePDUs()
